@@ -61,10 +61,44 @@ type story struct {
 	pendAt  map[int]int64 // material -> virtual time it was first published (guess)
 	v       int64
 	revoked map[int]bool
+	extras  []extra // other RRsets to splice into the answer section of the next run
+	alive   bool    // a process exists (the last run completed, no restart since)
 }
 
 func (st *story) op(format string, a ...any) {
-	st.emit(fmt.Sprintf(format, a...))
+	line := fmt.Sprintf(format, a...)
+	if strings.HasPrefix(line, "autota restart") || strings.HasPrefix(line, "autota killrun") || strings.HasPrefix(line, "autota new") {
+		st.alive = false
+	}
+	st.emit(line)
+	st.n++
+}
+
+// probe: a validated client lookup with whatever the live trust set is now; the root serves its
+// zone signed by ONE key: a current one, a revoked one, a pending one, a configured one.
+func (st *story) probe() {
+	if !st.alive {
+		return
+	}
+	r := st.r
+	var pool []kref
+	pool = append(pool, st.zone...)
+	pool = append(pool, st.cfg...)
+	for m := range st.revoked {
+		pool = append(pool, mk(m, 257), mk(m, 385))
+	}
+	if len(pool) == 0 || len(st.zone) == 0 {
+		return
+	}
+	signers := []kref{vlib.Pick(r, pool)}
+	if r.Chance(1, 4) {
+		signers = append(signers, vlib.Pick(r, pool))
+	}
+	line := fmt.Sprintf("autota probe %s %s", joinRefs(shuffled(r, st.zone)), joinRefs(signers))
+	if r.Chance(1, 6) {
+		line += " x=" + fmtExtras(st.rideAlong(signers))
+	}
+	st.emit(line)
 	st.n++
 }
 
@@ -124,6 +158,11 @@ func (st *story) run(set, signers []kref, bad []string, faults, crash string) {
 	if len(bad) > 0 {
 		line += " bad=" + strings.Join(bad, ",")
 	}
+	if len(st.extras) > 0 {
+		line += " x=" + fmtExtras(st.extras)
+		st.extras = nil
+	}
+	st.alive = crash == "-"
 	st.emit(line)
 	st.n++
 }
@@ -167,6 +206,65 @@ func (st *story) served() []kref {
 }
 
 var badKinds = []string{"w", "e", "f", "p", "x"}
+
+// rideAlong picks RRsets that ride along with the root's DNSKEY RRset in the answer
+// section: a DNSKEY RRset under another owner name (a fresh KSK, a copy of a published key,
+// a REVOKE form of a trusted key) or a TXT RRset; unsigned, signed by a key of its own,
+// signed by a published-but-untrusted key, or (rarely) validly signed by the given signers.
+func (st *story) rideAlong(trustedSigners []kref) []extra {
+	r := st.r
+	var out []extra
+	// one RRset per (owner, type): distinct owner names for the DNSKEY ones, at most one TXT
+	owners := shuffled(r, []int{1, 2, 3})
+	txt := false
+	for n := 1 + r.Intn(2); n > 0; n-- {
+		var e extra
+		owner := owners[n]
+		kind := r.Intn(5)
+		if kind == 0 && txt {
+			kind = 3
+		}
+		switch kind {
+		case 0: // TXT RRset
+			txt = true
+		case 1: // copy of a published key under another owner
+			if len(st.zone) > 0 {
+				e.keys = []kref{vlib.Pick(r, st.zone).at(owner)}
+			}
+		case 2: // REVOKE form of a configured key under another owner
+			if len(st.cfg) > 0 {
+				c := vlib.Pick(r, st.cfg)
+				e.keys = []kref{mk(c.id, c.flags|0x80).at(owner)}
+			}
+		}
+		if len(e.keys) == 0 && kind != 0 {
+			kind = 3
+		}
+		switch kind {
+		case 0, 1, 2:
+		default: // a key of the attacker's own, KSK-flagged
+			e.keys = []kref{mk(950+r.Intn(30), 257).at(owner)}
+			if r.Chance(1, 4) {
+				e.keys = append(e.keys, mk(950+r.Intn(30), 256).at(owner))
+			}
+		}
+		switch r.Intn(6) {
+		case 0, 1, 2: // unsigned
+		case 3: // signed by a key of its own (not trusted)
+			e.signers = []kref{mk(980+r.Intn(10), 257)}
+		case 4: // signed by a published key that is not configured
+			for _, k := range st.zone {
+				if !hasKey(st.cfg, k.id, k.flags) && !k.revoked() {
+					e.signers = []kref{k}
+				}
+			}
+		default: // validly signed by the set's own signers
+			e.signers = trustedSigners
+		}
+		out = append(out, e)
+	}
+	return out
+}
 
 // claims returns RRSIGs that carry the key tag / algorithm / signer name of
 // each given key but do NOT validly cover the served RRset (wrong private key,
@@ -216,12 +314,18 @@ func (st *story) honest(faultP, crashP int) {
 	if r.Chance(1, 8) && len(act) > 0 {
 		bad = append(bad, vlib.Pick(r, act).String()+":"+vlib.Pick(r, badKinds))
 	}
-	if killBudget > 0 && crashP > 0 && r.Chance(1, 12) {
+	if r.Chance(1, 9) {
+		st.extras = st.rideAlong(signers)
+	}
+	if len(st.extras) == 0 && killBudget > 0 && crashP > 0 && r.Chance(1, 12) {
 		killBudget--
 		st.op("autota killrun %s %s %d", joinRefs(st.served()), joinRefs(shuffled(r, signers)), r.Intn(2))
 		return
 	}
 	st.run(st.served(), shuffled(r, signers), bad, st.faults(faultP), st.crash(crashP))
+	if r.Chance(1, 5) {
+		st.probe()
+	}
 }
 
 // zone mutations -------------------------------------------------------
@@ -323,6 +427,9 @@ func (st *story) irregular() {
 				bad = append(bad, victim.String()+":"+vlib.Pick(r, badKinds))
 			}
 		}
+		if r.Chance(1, 4) {
+			st.extras = st.rideAlong(signers)
+		}
 		st.run(shuffled(r, set), signers, bad, st.faults(25), st.crash(10))
 		if r.Chance(2, 3) {
 			// the zone really did revoke it
@@ -336,6 +443,7 @@ func (st *story) irregular() {
 			st.run(nil, nil, nil, st.faults(10), "-")
 		} else {
 			st.emit("autota run none - " + st.faults(10) + " -")
+			st.alive = true
 			st.n++
 		}
 	case 4: // key whose tag collides with a published / configured one
@@ -691,6 +799,35 @@ func storyDamagedStore(st *story) {
 	}
 }
 
+// storyRideAlong: the genuine, validly signed root DNSKEY RRset with something spliced into
+// the answer section next to it on every refresh for more than the add hold-down.
+func storyRideAlong(st *story) {
+	r := st.r
+	a, b := st.mats[0], st.mats[1]
+	st.start([]kref{mk(a, 257), mk(b, 257)})
+	st.honest(0, 0)
+	x := mk(950+r.Intn(30), 257).at(1 + r.Intn(3))
+	var xs []extra
+	switch r.Intn(4) {
+	case 0:
+		xs = []extra{{keys: []kref{x}}} // unsigned KSK under another owner name
+	case 1:
+		xs = []extra{{keys: []kref{x}, signers: []kref{mk(x.id, 257)}}} // signed by itself only
+	case 2:
+		xs = []extra{{}, {keys: []kref{x}}} // an unsigned TXT RRset as well
+	default:
+		xs = []extra{{keys: []kref{x}, signers: []kref{mk(a, 257)}}} // validly signed by a trusted anchor
+	}
+	for i := 0; i < 4; i++ {
+		st.extras = xs
+		st.run(st.served(), st.activeSigners(), nil, "-", "-")
+		st.tick(vlib.Pick(r, []int64{10*day + 120, 11 * day, 16 * day}))
+	}
+	st.extras = xs
+	st.run(st.served(), st.activeSigners(), nil, "-", "-")
+	st.honest(0, 0)
+}
+
 // storyForgedClaims: what VERIFIES decides, not which key tags the RRSIGs carry.
 func storyForgedClaims(st *story) {
 	r := st.r
@@ -803,7 +940,7 @@ func gen(r0 *vlib.R, n int, tier string, emit func(string)) {
 	count := 0
 	wrap := func(s string) { emit(s); count++ }
 	scripted := []func(*story){storyRollover, storyMissing, storyMissing, storyLegacy, storyCollision, storyDamagedStore, storyDamagedStore,
-		storyForgedClaims, storyForgedClaims, storyForgedClaims}
+		storyForgedClaims, storyForgedClaims, storyForgedClaims, storyRideAlong, storyRideAlong, storyRideAlong}
 	for _, f := range scripted {
 		f(newStory(r, wrap))
 	}
